@@ -198,10 +198,21 @@ def run(cx):
                     return None
             return cur
 
+        ever_freed = set()
+        ref_params = {p for p, t in f["params"] if t and "&" in t and "__redu_list" not in t}    # e.g. const T &value: may refer to an element of the list
+
         def visit(e, cur):
+            freed_lists = set(ever_freed)
+            if freed_lists:
+                for x in sub_exprs(e):
+                    if x[0] == "var" and x[1] in ref_params:
+                        r.fail(f"{n}/reference-parameter-read-after-free[{x[1]}]", (em.rel, line), f"{n}: `{show(e)}` reads the by-reference parameter `{x[1]}` after `delete[]` of {sorted(freed_lists)}: when the caller passes an element of that very list (`xs.append(xs[0])`) the reference points into the freed buffer")
+                        break
             for x in sub_exprs(e):
                 if x[0] == "delete":
                     cur = cur | {lname(x[1])}
+                    if lname(x[1]) and any(lname(x[1]).startswith(b_ + ".") for b_ in byref):
+                        ever_freed.add(lname(x[1]))     # the caller's old buffer is gone for good, whatever the pointer is re-bound to
                 if x[0] == "assign" and x[1] == "=" and x[2][0] == "member" and x[2][2] == "data":
                     owner = lname(x[2][1])
                     tgt = lname(x[2])
